@@ -340,6 +340,9 @@ def run(repo, check):
     share(check, repo, c19.rule_r1, 'C02.R9', 'the bit writer appends exactly the field it is asked to (shared with C19.R1)',
           keep=lambda f: 'Writer' in f.key, args=(check.tier,))
     share(check, repo, c06.rule_r1, 'C02.R10', 'operator state is reset between the subsets being encoded (shared with C06.R1)')
+    from sa.rules import columns
+    from sa.rules.common import share as _share
+    _share(check, repo, columns.rule_columns, 'C02.R11', args=(check.tier, 'C02.R11'))
     check.assumptions = ['bitstring writes an n-bit unsigned field MSB first and refuses values that do not fit (trusted base)',
                          'byte identity with an independent encoder is a runtime fact and is not decided; the rules decide that the encoder '
                          'and the decoder agree on every field sequence and that the arithmetic is the FM-94 one']
